@@ -173,10 +173,10 @@ def typedAns (rc : Bytes → Option Bytes) (rf : Frame → List Frame) (t : Trac
   rTraceP (remapTyped rc rf t)
 
 /-- position-based sink policy: accept at most `k` bytes per call and never beyond position
-    `n`; once `n` bytes are in, fail; every `j`-th call (1-based, `j ≥ 2`) is `Interrupted`.
+    `n`; once `n` bytes are in, fail (or, `zeroWhenFull`, accept 0 bytes like `&mut [u8]`); every `j`-th call (1-based, `j ≥ 2`) is `Interrupted`.
     State: (calls so far, bytes accepted so far). -/
-def policySink (k : Nat) (n : Option Nat) (j : Option Nat) (s : Nat × Nat) (_len : Nat) :
-    Resp × (Nat × Nat) :=
+def policySink (k : Nat) (n : Option Nat) (j : Option Nat) (zeroWhenFull : Bool := false)
+    (s : Nat × Nat) (_len : Nat) : Resp × (Nat × Nat) :=
   let calls := s.1 + 1
   let intr := match j with
     | some j => j ≥ 2 && calls % j == 0
@@ -184,7 +184,7 @@ def policySink (k : Nat) (n : Option Nat) (j : Option Nat) (s : Nat × Nat) (_le
   if intr then (.interrupted, (calls, s.2))
   else match n with
     | some n =>
-      if s.2 ≥ n then (.fail, (calls, s.2))
+      if s.2 ≥ n then ((if zeroWhenFull then .accept 0 else .fail), (calls, s.2))
       else
         let take := min (min k _len) (n - s.2)
         (.accept take, (calls, s.2 + take))
@@ -366,7 +366,15 @@ def step (st : St) (line : String) : St × String :=
     | some k, some n, some j =>
       let recs := okRecs st.recs.get
       let total := (Cache.write recs).length
-      let r := Cache.writeTo (policySink k n j) (2 * total + 64) (0, 0) recs
+      let r := Cache.writeTo (policySink k n j false) (2 * total + 64) (0, 0) recs
+      (st, rWriteResult r.result ++ " " ++ hx r.accepted)
+    | _, _, _ => bad
+  | ["SINKZ", k, n, j] =>
+    match k.toNat?, natOpt n, natOpt j with
+    | some k, some n, some j =>
+      let recs := okRecs st.recs.get
+      let total := (Cache.write recs).length
+      let r := Cache.writeTo (policySink k n j true) (2 * total + 64) (0, 0) recs
       (st, rWriteResult r.result ++ " " ++ hx r.accepted)
     | _, _, _ => bad
   | ["TRC", t] =>
